@@ -9,7 +9,7 @@ Oracle: ghost frame / microframe registers updated from the script alone.
 from amaranth import *
 from ..harness import Harness
 from ..engine import Query
-from ..lib.host import SlottedHost, KIND_NONE, KIND_SETUP, KIND_IN, KIND_OUT, KIND_SOF, KIND_HSK
+from ..lib.host import SlottedHost, KIND_NONE, KIND_SETUP, KIND_IN, KIND_OUT, KIND_SOF, KIND_HSK, KIND_PING
 from ..lib.device import make_device, tie_device
 
 PROP = "C21"
@@ -44,7 +44,7 @@ class FrameHarness(Harness):
         tie_device(m, u, dev, h)
         ok = Const(1)
         for i in range(self.nslots):
-            ok = ok & ((h.kind[i] == KIND_NONE) | (h.kind[i] == KIND_SOF) | (h.kind[i] == KIND_IN))
+            ok = ok & ((h.kind[i] == KIND_NONE) | (h.kind[i] == KIND_SOF) | (h.kind[i] == KIND_IN) | (h.kind[i] == KIND_PING))
         m.d.comb += self.a["kinds"].eq(ok)
         g_frame, g_micro = Signal(11), Signal(3)
         good_sof = (h.cur_kind == KIND_SOF) & ~h.cur_flag & ~h.done
@@ -86,7 +86,7 @@ class FrameHarness(Harness):
         base = rng.getrandbits(11)
         for name, (sig, const) in self._inputs.items():
             if name.endswith("_kind"):
-                out[name] = rng.choice([KIND_SOF, KIND_SOF, KIND_SOF, KIND_IN, KIND_NONE])
+                out[name] = rng.choice([KIND_SOF, KIND_SOF, KIND_SOF, KIND_IN, KIND_NONE, KIND_PING])
             elif name.endswith("_data"):
                 out[name] = (base + rng.choice([0, 0, 1])) & 0x7ff
                 base = out[name]
@@ -106,5 +106,5 @@ def queries(tier):
     sof_all = {f"s{i}_kind": KIND_SOF for i in range(n)}
     hints = {"microframe_wrap": dict(sof_all, **{f"s{i}_flag": 0 for i in range(n)}), "microframe_2": sof_all}
     return [Query(f"bmc_{n}slots", f, SLOT * n + 3, timeout=1800, covers=covers, hints=hints,
-                  desc=f"{n} symbolic slots of SOF / corrupted SOF / IN token / idle"),
+                  desc=f"{n} symbolic slots of SOF / corrupted SOF / IN token / PING token / idle"),
             Query("cosim", lambda: FrameHarness(6), 0, kind="cosim", cosim_cycles=60 if tier == "quick" else 300)]
